@@ -451,6 +451,102 @@ pub fn inject(items: &mut Vec<RItem>, rng: &mut Rng) -> &'static str {
     }
 }
 
+/// Several simultaneous violations of the *same* kind (the situation in which "report the
+/// first one found" must not depend on hash order, and in which a truthful report has a choice).
+pub fn inject_many(items: &mut Vec<RItem>, rng: &mut Rng) -> &'static str {
+    let id = |n: &str| rkiki::RIdent { name: n.to_string(), pos: 0 };
+    let tuple = |syms: Vec<RSym>| RFieldset::Tuple(syms.into_iter().map(|s| rkiki::RField { name: None, skipped: false, underscore_pos: None, sym: s }).collect());
+    let named = |fs: Vec<(&str, RSym)>| {
+        RFieldset::Named(fs.into_iter().map(|(n, s)| rkiki::RField { name: Some(rkiki::RIdent { name: n.to_string(), pos: 0 }), skipped: false, underscore_pos: None, sym: s }).collect())
+    };
+    let some_nt: Option<String> = items.iter().find_map(|i| match i {
+        RItem::Struct { name, .. } | RItem::Enum { name, .. } => Some(name.name.clone()),
+        _ => None,
+    });
+    let some_nt = some_nt.unwrap_or_else(|| "KvNone".to_string());
+    let nt = |n: &str| RSym::N(rkiki::RIdent { name: n.to_string(), pos: 0 });
+    let at = rng.below(items.len() + 1);
+    let k = rng.range(2, 4);
+    match rng.below(9) {
+        0 => {
+            // k different variant names, each declared twice, interleaved
+            let names = ["Lorem", "Ipsum", "Dolor", "Sit"];
+            let mut variants = vec![];
+            for round in 0..2 {
+                for (i, n) in names.iter().take(k).enumerate() {
+                    let fs = if round == 0 { RFieldset::Empty } else { tuple(vec![nt(&some_nt); i + 1]) };
+                    variants.push((id(n), fs));
+                }
+            }
+            if rng.chance(0.5) {
+                rng.shuffle(&mut variants);
+            }
+            items.insert(at, RItem::Enum { attrs: vec![], name: id("KvMany"), variants });
+            "many-variant-name-clashes"
+        }
+        1 => {
+            // k different symbol sequences, each used by two variants
+            let mut variants = vec![];
+            for i in 0..k {
+                variants.push((id(&format!("Va{i}")), tuple(vec![nt(&some_nt); i + 1])));
+                variants.push((id(&format!("Vb{i}")), tuple(vec![nt(&some_nt); i + 1])));
+            }
+            if rng.chance(0.5) {
+                rng.shuffle(&mut variants);
+            }
+            items.insert(at, RItem::Enum { attrs: vec![], name: id("KvMany"), variants });
+            "many-symbol-sequence-clashes"
+        }
+        2 => {
+            let syms: Vec<RSym> = (0..k).map(|i| nt(&format!("KvUndefined{i}"))).collect();
+            items.insert(at, RItem::Struct { attrs: vec![], name: id("KvMany"), fieldset: tuple(syms) });
+            "many-undefined-nonterminals"
+        }
+        3 => {
+            let syms: Vec<RSym> = (0..k).map(|i| RSym::T(rkiki::RIdent { name: format!("KvUndefined{i}"), pos: 0 })).collect();
+            items.insert(at, RItem::Struct { attrs: vec![], name: id("KvMany"), fieldset: tuple(syms) });
+            "many-undefined-terminals"
+        }
+        4 => {
+            // k different top-level names, each defined twice
+            for i in 0..k {
+                for _ in 0..2 {
+                    let p = rng.below(items.len() + 1);
+                    items.insert(p, RItem::Struct { attrs: vec![], name: id(&format!("KvDup{i}")), fieldset: RFieldset::Empty });
+                }
+            }
+            "many-name-clashes"
+        }
+        5 => {
+            for i in 0..k {
+                let p = rng.below(items.len() + 1);
+                items.insert(p, RItem::Struct { attrs: vec![], name: id(&format!("kvLower{i}")), fieldset: RFieldset::Empty });
+            }
+            "many-lowercase-nonterminals"
+        }
+        6 => {
+            let fields: Vec<(String, RSym)> = (0..k).map(|i| (format!("Upper{i}"), nt(&some_nt))).collect();
+            let fs = named(fields.iter().map(|(n, s)| (n.as_str(), s.clone())).collect());
+            items.insert(at, RItem::Struct { attrs: vec![], name: id("KvMany"), fieldset: fs });
+            "many-uppercase-fields"
+        }
+        7 => {
+            for _ in 0..k {
+                let p = rng.below(items.len() + 1);
+                items.insert(p, RItem::Start(id(&some_nt)));
+            }
+            "many-start-statements"
+        }
+        _ => {
+            for i in 0..k {
+                let p = rng.below(items.len() + 1);
+                items.insert(p, RItem::Terminal { attrs: vec![], name: id(&format!("KvTerm{i}")), variants: vec![] });
+            }
+            "many-terminal-enums"
+        }
+    }
+}
+
 /// Random items over a tiny name pool: every kind of violation in every combination.
 pub fn pool_file(rng: &mut Rng) -> String {
     const NAMES: &[&str] = &["A", "B", "C", "Tok", "X", "a", "b", "x", "_q", "__", "A1", "tok", "T", "Y"];
